@@ -283,7 +283,7 @@ def replay(rp):
 def plan(tier, seed):
     if tier == 'quick':
         return [{'ncases': 1200} for _ in range(32)]
-    return [{'ncases': 3000} for _ in range(64)]
+    return [{'ncases': 15000} for _ in range(64)]
 
 
 def run(tier, seed):
